@@ -83,3 +83,16 @@ Theorem C05_reference_shard_lookup_requests_only_the_hash_path : forall size lg,
       end.
 Proof. exact ref_history_lookup_requests. Qed.
 Print Assumptions C05_reference_shard_lookup_requests_only_the_hash_path.
+
+(* reference-written files in the trickle layout (File/Trickle.v; raw leaves, a chunker that emits no empty chunk): a range read
+   through the lazy view requests only blocks whose byte span meets the range *)
+From UV Require Import File.Builder File.BuilderProofs File.BuilderProofs3 File.Trickle File.TrickleProofs.
+Theorem C05_reference_trickle_range_loads : forall (W : nat) (chunks : list bytes), (1 <= W)%nat -> chunks <> [] -> Forall nonempty chunks -> (blen (concat chunks) < bound63)%N ->
+  let b := fst (trickle_layout W chunks) in
+  forall a k, (0 <= a)%Z ->
+    let '(_, loads, _, _) := take (stream nofault b a) k [] [] in
+    forall c, In c loads -> exists s e, In (c, s, e) (spans b 0) /\ (s < a + k)%Z /\ (a < e)%Z.
+Proof.
+  intros W chunks HW Hne Hs Hb b. destruct (trickle_qualifies W chunks HW Hne Hs Hb) as [H1 H2]. exact (range_loads b H1 H2).
+Qed.
+Print Assumptions C05_reference_trickle_range_loads.
